@@ -579,9 +579,14 @@ def r5_progress_and_enum(ctx):
     ctx.analysed(lg)
     n_cb = 0
     for c in calls_in(lg):
-        cbk = kwarg(c, "callback")
-        if cbk is None or not isinstance(cbk, ast.Name) or \
-                cbk.id not in func_params(lg):
+        # any argument that is the caller's callback parameter (by keyword
+        # or by position)
+        cbk = None
+        for a_ in list(c.args) + [k.value for k in c.keywords]:
+            if isinstance(a_, ast.Name) and a_.id == "callback" and \
+                    a_.id in func_params(lg):
+                cbk = a_
+        if cbk is None:
             continue
         n_cb += 1
         lp_ = getattr(c, "_parent", None)
